@@ -113,12 +113,81 @@ fn gen_c05(sink: &mut Sink, tier: &str, seed: u64) {
     }
 }
 
+pub const CFG: &str = if cfg!(feature = "std") { "std" } else if cfg!(feature = "alloc") { "alloc" } else { "none" };
+
+/// C06: skip() on generated items with suffixes, prefixes, deep chains; also the full decode of the same item.
+fn gen_c06(sink: &mut Sink, tier: &str, seed: u64) {
+    use crate::cbgen::*;
+    let mut rng = StdRng::seed_from_u64(seed ^ 0xc06);
+    let n = if tier == "thorough" { 60000 } else { 8000 };
+    let suffixes: [&[u8]; 4] = [&[], &[0x00], &[0xff], &[0x9f, 0x01]];
+    let mut call = |sink: &mut Sink, name: &str, buf: &[u8]| {
+        let input = json!({"buf": crate::abs::bytes(buf), "pos": 0});
+        let obs = run_op("acc", name, &input);
+        sink.put(json!({"fam": "acc", "name": name, "cfg": CFG, "in": input, "obs": obs}));
+    };
+    // deep chains (indefinite arrays / maps / tags / singletons nested very deep), spread over the shards
+    let mut chains = deep_chains(tier);
+    let every = std::cmp::max(1, n / (chains.len() + 1));
+    for i in 0..n {
+        if i % every == 0 { if let Some(c) = chains.pop() { sink.distinct_inputs += 1; call(sink, "skip", &c); } }
+        let o = Opts { max_depth: 8, max_nodes: if i % 10 == 0 { 200 } else { 30 }, bad_utf8: i % 7 == 0, ..Opts::default() };
+        let it = gen_item(&mut rng, &o);
+        sink.distinct_inputs += 1;
+        // the item followed by each suffix
+        for s in suffixes.iter() {
+            let mut b = it.clone(); b.extend_from_slice(s);
+            call(sink, "skip", &b);
+        }
+        if cfg!(feature = "alloc") { call(sink, "item", &it); }
+        // strict prefixes: all of them for 1 in 20 items, one random otherwise
+        if i % 20 == 0 && (it.len() <= 100 || tier == "thorough") { for cut in 0..it.len() { call(sink, "skip", &it[..cut]); } }
+        else { let cut = rng.gen_range(0..it.len()); call(sink, "skip", &it[..cut]); }
+        // a mutation (may or may not be well-formed: the specification classifies it)
+        let m = mutate(&mut rng, &it);
+        call(sink, "skip", &m);
+    }
+}
+
+fn deep_chains(tier: &str) -> Vec<Vec<u8>> {
+    let mut outv = Vec::new();
+    let depths: &[usize] = if tier == "thorough" { &[10, 100, 1000, 4000] } else { &[10, 100, 500] };
+    for &depth in depths {
+        for kind in 0..6 {
+            let mut b = Vec::new();
+            for j in 0..depth {
+                match kind {
+                    0 => b.push(0x9f), 1 => { b.push(0xbf); b.push(0x00) } 2 => b.push(0xc1), 3 => b.push(0x81),
+                    4 => { if j % 2 == 0 { b.push(0x9f) } else { b.push(0x81) } }
+                    _ => { if j % 3 == 0 { b.push(0x82); b.push(0x00) } else { b.push(0x9f) } }
+                }
+            }
+            b.push(0x01);
+            for j in (0..depth).rev() {
+                match kind {
+                    0 | 1 => b.push(0xff), 2 | 3 => {}
+                    4 => { if j % 2 == 0 { b.push(0xff) } }
+                    _ => { if j % 3 != 0 { b.push(0xff) } }
+                }
+            }
+            let mut c = b.clone(); c.push(0x05);
+            outv.push(b[..b.len() - 1].to_vec());
+            outv.push(b[..b.len() / 2].to_vec());
+            outv.push(c);
+            outv.push(b);
+        }
+    }
+    outv
+}
+
 /// vh gen <family> <tier> <seed> <outdir>
 pub fn cmd_gen(args: &[String]) -> i32 {
     let (fam, tier, seed, dir) = (&args[0], &args[1], args[2].parse::<u64>().unwrap_or(0), &args[3]);
-    let mut sink = Sink::new(dir, 100_000);
+    let cap = args.get(4).and_then(|s| s.parse::<usize>().ok()).unwrap_or(100_000);
+    let mut sink = Sink::new(dir, cap);
     match fam.as_str() {
         "c05" => gen_c05(&mut sink, tier, seed),
+        "c06" => gen_c06(&mut sink, tier, seed),
         _ => { eprintln!("unknown family {}", fam); return 2 }
     }
     println!("{}", sink.finish());
